@@ -132,12 +132,13 @@ def register(R):
     # of _exception see one value.  Under that assumption the coordinator is read sequentially.
     R.contract(
         f'{TC}.result', props=['C17', 'C03'], self_type=ObjT(TC), params={},
-        requires=lambda c: [coord_inv_formula(c)],
+        returns=ExtT('result'), raise_when={'Exception': lambda c: None, 'KeyboardInterrupt': lambda c: None},
+        setup=lambda eng, st, args, self_val: st.assume(_inv_at(eng, st, self_val)),
         ensures=lambda c: {
             'returns_result_only_without_exception': z3.And(
                 is_none(c.oldf('_exception')), same_value(c.engine, c.new.st, c.result, c.oldf('_result'))),
-            'waited_for_done_event': z3.BoolVal(any(e.name == 'event.wait' for e in c.trace)),
         },
+        checks=lambda c: {'waited_for_done_event': z3.BoolVal(any(e.name == 'event.wait' for e in c.trace))},
         raises={
             '$stored': lambda c: {'raises_exactly_the_stored_exception': z3.And(
                 z3.Not(is_none(c.oldf('_exception'))), c.exc.attrs['term'] == term_of(c.oldf('_exception').val))},
@@ -156,6 +157,11 @@ def register(R):
         raises={f's3transfer.exceptions:TransferNotDoneError': lambda c: {
             'coordinator_untouched': z3.BoolVal(not any(e.kind == 'call' and e.name == f'{TC}.set_exception' for e in c.trace))}},
     )
+
+
+def _inv_at(eng, st, ref):
+    stt, exc = S(st.obj(ref).fields['_status']), st.obj(ref).fields['_exception']
+    return z3.And(status_in(stt, STATUSES), status_in(stt, ['failed', 'cancelled']) == z3.Not(is_none(exc)))
 
 
 def coord_inv_formula(c):
